@@ -359,7 +359,7 @@ impl Clone for TransitionCycle {
 //@end
 
 // ---- the rest of one_cluster_per_maintenance is pinned (token hash with the lifted pieces removed) ------------------------
-//@skeleton solution/src/transition.rs Transition::one_cluster_per_maintenance : stmt "for vehicle_id in vehicles.iter()"; closure sort_by_key#0; closure sort_by_key#1; let best_cluster_opt; stmt "match best_cluster_opt"; closure map#0; let cycle_lookup = d2e3485b9b6e3136
+//@skeleton solution/src/transition.rs Transition::one_cluster_per_maintenance : stmt "for vehicle_id in vehicles.iter()"; closure sort_by_key#0; closure sort_by_key#1; let best_cluster_opt; stmt "match best_cluster_opt"; closure map#0; let cycle_lookup = cdadf89b5bf99fac
 //@skeleton solution/src/transition.rs Transition::new_fast : ; = 5f12dd2b9f4c5810
 
 // ---- the whole function: what the verified pieces and the pinned plumbing give together -----------------------------------
